@@ -18,6 +18,7 @@ import (
 	_ "kvassverif/internal/e1"
 	_ "kvassverif/internal/e3"
 	_ "kvassverif/internal/e4"
+	_ "kvassverif/internal/e6"
 
 	_ "github.com/prometheus/prometheus/discovery/install"
 )
